@@ -6,6 +6,7 @@ import (
 	"strings"
 
 	. "github.com/apmckinlay/gsuneido/core"
+	"github.com/apmckinlay/gsuneido/db19"
 	qry "github.com/apmckinlay/gsuneido/dbms/query"
 
 	"verifharness/vh"
@@ -29,19 +30,29 @@ func runC24(tr *vh.Trace, rnd *rand.Rand, nscen, nact int) {
 		tr.Emit(dbEvent(sc))
 		d := buildDB(rnd, sc, nil)
 		g := &Gen{rnd: rnd, sc: sc, nview: &nview, noViews: true}
+		// one third of the scenarios run all their statements in ONE transaction, so each
+		// statement reads the uncommitted writes of the previous ones
+		var shared *db19.UpdateTran
+		if rnd.Intn(3) == 0 {
+			shared = d.db.NewUpdateTran()
+		}
 		for i := 0; i < nact; i++ {
 			a := g.genAction()
 			if a == nil {
 				continue
 			}
 			kinds[a.kind]++
-			n, err := d.doAction(a.text)
+			n, err := d.doAction(a.text, shared)
 			if err == "" {
 				nok++
 			} else {
 				nfail++
 			}
-			after := d.readTables()
+			rolled := shared != nil && err != ""
+			if rolled {
+				shared = nil // the failed statement aborted the whole transaction
+			}
+			after := d.readTables(shared)
 			var keys [][]string
 			keys = append(keys, d.schemas[a.table].Keys...)
 			for i := range keys {
@@ -51,10 +62,20 @@ func runC24(tr *vh.Trace, rnd *rand.Rand, nscen, nact int) {
 			}
 			tr.Emit(vh.E("Action", "kind", a.kind, "text", a.text, "table", a.table, "keys", keys,
 				"rcols", strsJSON(a.rcols), "rvals", valsJSON(a.rvals), "ast", a.astJSON(), "set", a.setJSON(),
-				"n", n, "err", err, "after", after, "conf", d.label))
+				"n", n, "err", err, "rolled", rolled, "after", after, "conf", d.label))
 			// keep the scenario (and the column kinds the generator relies on) in step with
 			// what the database now holds
 			d.adopt(after2tables(sc, after))
+			if rolled {
+				// everything the transaction did is gone: start the model again from what is there
+				tr.Reset()
+				tr.Emit(dbEvent(sc))
+			}
+		}
+		if shared != nil {
+			if s := shared.Complete(); s != "" {
+				vh.Fatal("commit of shared transaction: %s", s)
+			}
 		}
 		d.close()
 	}
@@ -83,7 +104,7 @@ type action struct {
 
 func (a *action) astJSON() any {
 	if a.q == nil {
-		return vh.E("").Add("op", "none")
+		return (&vh.Ev{}).Add("op", "none")
 	}
 	return a.q.json()
 }
@@ -91,7 +112,7 @@ func (a *action) astJSON() any {
 func (a *action) setJSON() []any {
 	r := []any{}
 	for i := range a.setc {
-		r = append(r, vh.E("").Add("c", a.setc[i]).Add("e", a.sete[i].json()))
+		r = append(r, (&vh.Ev{}).Add("c", a.setc[i]).Add("e", a.sete[i].json()))
 	}
 	return r
 }
@@ -174,9 +195,12 @@ func (g *Gen) genAction() *action {
 	}
 }
 
-// doAction runs one statement in its own update transaction
-func (d *DB) doAction(text string) (n int, err string) {
-	ut := d.db.NewUpdateTran()
+// doAction runs one statement in its own update transaction, or in the shared one
+func (d *DB) doAction(text string, shared *db19.UpdateTran) (n int, err string) {
+	ut := shared
+	if ut == nil {
+		ut = d.db.NewUpdateTran()
+	}
 	defer func() {
 		if e := recover(); e != nil {
 			ut.Abort()
@@ -184,16 +208,22 @@ func (d *DB) doAction(text string) (n int, err string) {
 		}
 	}()
 	n = qry.DoAction(th, ut, text)
-	if s := ut.Complete(); s != "" {
-		return 0, "commit: " + s
+	if shared == nil {
+		if s := ut.Complete(); s != "" {
+			return 0, "commit: " + s
+		}
 	}
 	return n, ""
 }
 
 // readTables reads every table through a fresh read transaction
-func (d *DB) readTables() []any {
+// (or through the shared update transaction, which sees its own uncommitted writes)
+func (d *DB) readTables(shared *db19.UpdateTran) []any {
 	var tabs []any
-	rt := d.db.NewReadTran()
+	var rt qry.QueryTran = d.db.NewReadTran()
+	if shared != nil {
+		rt = shared
+	}
 	for _, t := range d.sc.Tables {
 		rows := [][]Val{}
 		func() {
@@ -218,7 +248,7 @@ func (d *DB) readTables() []any {
 				rows = append(rows, vals)
 			}
 		}()
-		tabs = append(tabs, vh.E("").Add("name", t.Name).Add("cols", t.Cols).Add("rows", rows))
+		tabs = append(tabs, (&vh.Ev{}).Add("name", t.Name).Add("cols", t.Cols).Add("rows", rows))
 	}
 	return tabs
 }
